@@ -16,7 +16,7 @@ ck.assumptions = [
     'wide::f64x4 is modelled by its lane-wise contract (new/splat/cmp_lt/cmp_gt/cmp_eq/move_mask); wide::i64x4 is executed for real by Kani',
     'Kani harness stubs: none needed for these kernels; unwinding assertions on; cover property must be satisfied',
     'format!("i:{v}") etc. are modelled as structured strings: equal iff same template and equal arguments (Display of integers is injective)',
-    'NOT decided: plan equivalence over engine state (index maintenance through insert/update/delete, limit/offset, cursors, slab vectorised filter, query router) - TensorStore/slab state is outside the executor',
+    'NOT decided: plan equivalence over engine state (index maintenance through the insert paths - update/delete are C09 U3, index creation is I1 -, limit/offset, cursors, slab vectorised filter, query router) - TensorStore/slab state is outside the executor',
     'a superset returned by an index is harmless only if the caller re-checks fetched rows (select_with_options does); only completeness of index lookups is required here',
 ]
 VK = {n: P.variant_index('Value', n) for n in ('Null', 'Int', 'Float', 'String', 'Bool')}
@@ -322,9 +322,97 @@ for h in kres:
     ck.violations.append(dict(obligation='V2_i64_filters_match_scalar_kani', key='simd-i64', witness=w, replayed=None))
 
 # ------------------------------------------------------------------ native replay through RelationalEngine (index vs scan)
+# ------------------------------------------------------------------ I1: a new index covers every row that already exists
+# "Creating an index changes only speed": create_index / create_btree_index executed from MIR with the schema, the metadata write and
+# the slab as stubs: scan_all yields 0..2 (3) existing rows with symbolic slab ids and opaque column values, index_add /
+# btree_index_add record their arguments by value.
+from mirsym.models import ok as _ok_, err as _err_, deref as _deref
+NR_I1 = (0, 1, 2) if T == 'quick' else (0, 1, 2, 3)
+ck.declare('I1_new_index_covers_existing_rows', f'create_index / create_btree_index on a table of {list(NR_I1)} rows (slab ids symbolic < 2^62, the indexed column is the table\'s first)',
+           'Ok => exactly one entry per existing row is added: (value converted from the row\'s stored column value, row id = slab id + 1)')
+
+
+def _i1_rec(kind):
+    def f(c):
+        c.st.notes.append((kind, tuple(_deref(c.st, a) if isinstance(a, Ptr) else a for a in c.args[1:])))
+        return _ok_(UNIT, 'Result<(), RelationalError>')
+    return f
+
+
+def _i1_scan(c):
+    rows = [Struct('(SlabRowId, Vec<SlabColumnValue>)', {0: Struct('SlabRowId', {0: Int(z3.BitVec(f'srow{i}', 64), False)}), 1: Seq('SlabColumnValue', [Opaque(f'cv{i}')])}) for i in range(c.st.env['nrows'])]
+    return _ok_(Seq('(SlabRowId, Vec<SlabColumnValue>)', rows), 'Result<Vec<(SlabRowId, Vec<SlabColumnValue>)>, SlabError>')
+
+
+def _i1_into(c):
+    v = c.args[0]
+    return Enum('Value', VK['Int'], {('Int', 0): Int(z3.BitVec('value_of_' + str(getattr(v, 'what', v)), 64), True)}, variant='Int')
+
+
+i1_saved = dict(ex.extra_models)
+_col0 = lambda: Struct('Column', {P.field('Column', 'name'): Str(text='c'), P.field('Column', 'nullable'): z3.BoolVal(True)}, lazy='COL')
+ex.extra_models.update({
+    'RelationalEngine::validate_name': lambda c: _ok_(UNIT, 'Result<(), RelationalError>'),
+    'RelationalEngine::get_schema': lambda c: _ok_(Struct('Schema', {P.field('Schema', 'columns'): Seq('Column', [_col0()])}, lazy='SCHEMA'), 'Result<Schema, RelationalError>'),
+    'RelationalEngine::check_index_limit': lambda c: _ok_(UNIT, 'Result<(), RelationalError>'),
+    'RelationalEngine::index_meta_key': lambda c: Str(text='idxmeta'), 'RelationalEngine::btree_meta_key': lambda c: Str(text='btmeta'),
+    'TensorStore::exists': lambda c: z3.BoolVal(False), 'TensorData::new': lambda c: Struct('TensorData', {}), 'TensorData::set': lambda c: UNIT,
+    'RelationalEngine::put_maybe_durable': lambda c: _ok_(UNIT, 'Result<(), RelationalError>'),
+    'RelationalEngine::slab': lambda c: ref(Struct('RelationalSlab', {}, lazy='SLAB')), 'RelationalSlab::scan_all': _i1_scan,
+    'RelationalEngine::index_add': _i1_rec('index_add'), 'RelationalEngine::btree_index_add': _i1_rec('btree_add'),
+    'RowId::as_u64': lambda c: (lambda v: v.fields[0] if isinstance(v, Struct) else v)(_deref(c.st, c.args[0]) if isinstance(c.args[0], Ptr) else c.args[0]),
+    '<ColumnValue as Clone>::clone': lambda c: _deref(c.st, c.args[0]), '<ColumnValue as Into<Value>>::into': _i1_into,
+})
+_keep_len, ex.default_maxlen = ex.default_maxlen, 1
+i1_ok = 0
+try:
+    for fn_, kind_ in (('create_index', 'index_add'), ('create_btree_index', 'btree_add')):
+        for n in NR_I1:
+            st = ex.new_state()
+            st.env['nrows'] = n
+            srows = [z3.BitVec(f'srow{i}', 64) for i in range(n)]
+            for x in srows:
+                st.assume(z3.ULT(x, z3.BitVecVal(1 << 62, 64)))
+            eng = Struct('RelationalEngine', {P.field('RelationalEngine', 'ddl_lock'): Struct('RwLock', {'data': Cell(val=UNIT)})}, lazy='ENG')
+            st.frames = []
+            ex.call(st, 'RelationalEngine::' + fn_, [ref(eng), Str(z3.BitVec('table', 64)), Str(text='c')])
+            res = ex.run(st)
+            ck.note_path_problem(res, f'{fn_} rows={n}')
+            for r in res:
+                adds = [x for x in r.st.notes if x[0] in ('index_add', 'btree_add')]
+                wit = lambda m, fn_=fn_, n=n, adds=adds: {'index_build': fn_, 'rows': n, 'entries_added': len(adds)}
+                if r.status == 'panic':
+                    ck.require(ex, 'I1_new_index_covers_existing_rows', r.pc, None, z3.BoolVal(False), wit, lambda m, w: 'index-build-panic')
+                    continue
+                if r.status != 'return' or r.retval.variant != 'Ok':
+                    continue
+                i1_ok += 1
+                cs = [z3.BoolVal(len(adds) == n and all(a[0] == kind_ and len(a[1]) == 4 for a in adds))]
+                for i in range(n):
+                    hit = []
+                    for a in adds:
+                        if len(a[1]) != 4:
+                            continue
+                        v_ = a[1][2]
+                        is_val = isinstance(v_, Enum) and v_.variant == 'Int' and str(v_.fields[('Int', 0)].v) == f'value_of_cv{i}'
+                        hit.append(z3.And(z3.BoolVal(is_val), a[1][3].v == srows[i] + 1))
+                    cs.append(z3.Or(hit) if hit else z3.BoolVal(False))
+                ck.require(ex, 'I1_new_index_covers_existing_rows', r.pc, None, z3.And(cs), wit, lambda m, w: 'index-built-incomplete')
+finally:
+    ex.default_maxlen = _keep_len
+    ex.extra_models.clear()
+    ex.extra_models.update(i1_saved)
+if i1_ok == 0:
+    ck.inconclusive.append('I1 vacuous: no index build succeeded')
+ck.functions += ['RelationalEngine::create_index', 'RelationalEngine::create_btree_index']
+
 for v in ck.violations:
     w = v['witness']
-    if w.get('simd') == 'f64':
+    if 'index_build' in w:
+        rep = Replay.call({'op': 'relational_index_build', 'kind': 'btree' if w['index_build'] == 'create_btree_index' else 'hash', 'rows': max(w['rows'], 2)})
+        v['native'] = rep
+        v['replayed'] = rep.get('violates')
+    elif w.get('simd') == 'f64':
         rep = Replay.call({'op': 'simd_filter_f64', **w})
         v['native'] = rep
         v['replayed'] = rep.get('differs')
